@@ -9,6 +9,7 @@ package vsched
 
 import (
 	"fmt"
+	"os"
 	"reflect"
 	"runtime"
 	"sort"
@@ -38,25 +39,26 @@ type selCase struct {
 }
 
 type thread struct {
-	s     *Sched
-	daemon bool
-	id    int
-	name  string
-	wake  chan struct{}
-	kind  opKind
-	ch    uintptr
-	chcap int
-	val   any           // value to send / received value
-	ok    bool          // recv ok flag
-	until time.Duration // sleep deadline (virtual)
-	pred  func() bool
-	cases []selCase
+	timer      bool // a vsched timer/ticker thread: never keeps an execution alive on its own
+	s          *Sched
+	daemon     bool
+	id         int
+	name       string
+	wake       chan struct{}
+	kind       opKind
+	ch         uintptr
+	chcap      int
+	val        any           // value to send / received value
+	ok         bool          // recv ok flag
+	until      time.Duration // sleep deadline (virtual)
+	pred       func() bool
+	cases      []selCase
 	hasDefault bool
-	chosen int // select result
-	done  bool
-	completed bool // the pending op was completed by a partner; thread only needs to resume
-	panicVal any
-	aborting bool
+	chosen     int // select result
+	done       bool
+	completed  bool // the pending op was completed by a partner; thread only needs to resume
+	panicVal   any
+	aborting   bool
 }
 
 type shadow struct {
@@ -77,21 +79,21 @@ type Point struct {
 
 // Sched is one controlled execution.
 type Sched struct {
-	mu       sync.Mutex
-	threads  []*thread
-	cur      *thread
-	yieldCh  chan *thread
-	chans    map[uintptr]*shadow
-	now      time.Duration
-	prefix   []int
-	Points   []Point
-	Trace    []string
-	Deadlock bool
-	Livelock bool
-	Panics   []string
-	horizon  int
+	mu         sync.Mutex
+	threads    []*thread
+	cur        *thread
+	yieldCh    chan *thread
+	chans      map[uintptr]*shadow
+	now        time.Duration
+	prefix     []int
+	Points     []Point
+	Trace      []string
+	Deadlock   bool
+	Livelock   bool
+	Panics     []string
+	horizon    int
 	DivergedAt int
-	lastRun  int
+	lastRun    int
 }
 
 var gids sync.Map // goroutine id -> *thread (threads of all concurrently running executions)
@@ -401,6 +403,7 @@ func (s *Sched) doRecv(t *thread, ch uintptr) (any, bool) {
 }
 
 func (s *Sched) loop() {
+	var watchdog *time.Timer
 	for steps := 0; ; steps++ {
 		if steps > s.horizon {
 			s.Livelock = true
@@ -418,6 +421,16 @@ func (s *Sched) loop() {
 			}
 		}
 		if alive == 0 {
+			return
+		}
+		onlyTimers := true
+		for _, t := range s.threads {
+			if !t.done && !t.timer {
+				onlyTimers = false
+			}
+		}
+		if onlyTimers {
+			s.abortAll() // every program thread has finished; pending timers and tickers do not keep the execution alive
 			return
 		}
 		if len(en) == 0 {
@@ -477,9 +490,29 @@ func (s *Sched) loop() {
 		s.lastRun = t.id
 		s.cur = t
 		t.wake <- struct{}{}
-		<-s.yieldCh
+		if watchdog == nil {
+			watchdog = time.NewTimer(stuckAfter)
+		} else {
+			watchdog.Reset(stuckAfter)
+		}
+		select {
+		case <-s.yieldCh:
+			if !watchdog.Stop() {
+				select {
+				case <-watchdog.C:
+				default:
+				}
+			}
+		case <-watchdog.C:
+			// never a property verdict: the code under test blocks in an operation the scheduler does not control
+			fmt.Printf("HARNESS-ERROR: thread %d (%s) did not reach a scheduling point within %v of real time (it blocks in an operation the instrumenter did not rewrite)\n", t.id, t.name, stuckAfter)
+			os.Exit(3)
+		}
 	}
 }
+
+// stuckAfter bounds the real time one thread may run between two scheduling points.
+const stuckAfter = 120 * time.Second
 
 // abortAll unwinds every parked thread so that no goroutine leaks between executions.
 func (s *Sched) abortAll() {
@@ -531,6 +564,14 @@ func SetDaemon() {
 	_, t := cur()
 	if t != nil {
 		t.daemon = true
+	}
+}
+
+// setTimerThread marks the calling thread as a timer thread (daemon that never keeps an execution alive).
+func setTimerThread() {
+	_, t := cur()
+	if t != nil {
+		t.daemon, t.timer = true, true
 	}
 }
 
@@ -645,7 +686,7 @@ func (c *RecvCase[T]) Val() T { return c.val }
 // Ok is the received ok flag.
 func (c *RecvCase[T]) Ok() bool { return c.ok }
 
-func (c *RecvCase[T]) desc() selCase   { id, cp := chanID(c.ch); return selCase{ch: id, cap: cp} }
+func (c *RecvCase[T]) desc() selCase { id, cp := chanID(c.ch); return selCase{ch: id, cap: cp} }
 func (c *RecvCase[T]) set(v any, ok bool) {
 	c.ok = ok
 	if v != nil {
@@ -773,4 +814,126 @@ func VirtualNow() time.Duration {
 		return 0
 	}
 	return s.now
+}
+
+// ---- timers under virtual time ------------------------------------------------------------------------
+// A timer is a daemon thread that sleeps (virtual time) and then does a non-blocking send on the timer's channel, which
+// has capacity 1 like the runtime's.  Outside a controlled execution the real timers are used.
+
+// After is time.After.
+func After(d time.Duration) <-chan time.Time { return NewTimer(d).C }
+
+// Tick is time.Tick.
+func Tick(d time.Duration) <-chan time.Time { return NewTicker(d).C }
+
+// Timer is time.Timer.
+type Timer struct {
+	C       <-chan time.Time
+	c       chan time.Time
+	rt      *time.Timer
+	gen     int
+	stopped bool
+	fired   bool
+}
+
+func (t *Timer) arm(d time.Duration) {
+	t.gen++
+	gen := t.gen
+	t.stopped, t.fired = false, false
+	Go(func() {
+		setTimerThread()
+		Sleep(d)
+		if t.stopped || t.gen != gen {
+			return
+		}
+		t.fired = true
+		Select(true, NewSend[time.Time](t.c, Now()))
+	})
+}
+
+// NewTimer is time.NewTimer.
+func NewTimer(d time.Duration) *Timer {
+	if s, th := cur(); s == nil || th == nil {
+		rt := time.NewTimer(d)
+		return &Timer{C: rt.C, rt: rt}
+	}
+	c := make(chan time.Time, 1)
+	t := &Timer{C: c, c: c}
+	t.arm(d)
+	return t
+}
+
+// Stop is (*time.Timer).Stop.
+func (t *Timer) Stop() bool {
+	if t.rt != nil {
+		return t.rt.Stop()
+	}
+	was := !t.stopped && !t.fired
+	t.stopped = true
+	return was
+}
+
+// Reset is (*time.Timer).Reset.
+func (t *Timer) Reset(d time.Duration) bool {
+	if t.rt != nil {
+		return t.rt.Reset(d)
+	}
+	was := !t.stopped && !t.fired
+	t.arm(d)
+	return was
+}
+
+// Ticker is time.Ticker.
+type Ticker struct {
+	C       <-chan time.Time
+	c       chan time.Time
+	rt      *time.Ticker
+	gen     int
+	stopped bool
+}
+
+func (t *Ticker) arm(d time.Duration) {
+	t.gen++
+	gen := t.gen
+	t.stopped = false
+	Go(func() {
+		setTimerThread()
+		for {
+			Sleep(d)
+			if t.stopped || t.gen != gen {
+				return
+			}
+			Select(true, NewSend[time.Time](t.c, Now()))
+		}
+	})
+}
+
+// NewTicker is time.NewTicker.
+func NewTicker(d time.Duration) *Ticker {
+	if s, th := cur(); s == nil || th == nil {
+		rt := time.NewTicker(d)
+		return &Ticker{C: rt.C, rt: rt}
+	}
+	c := make(chan time.Time, 1)
+	t := &Ticker{C: c, c: c}
+	t.arm(d)
+	return t
+}
+
+// Stop is (*time.Ticker).Stop.
+func (t *Ticker) Stop() {
+	if t.rt != nil {
+		t.rt.Stop()
+		return
+	}
+	t.stopped = true
+}
+
+// Reset is (*time.Ticker).Reset.
+func (t *Ticker) Reset(d time.Duration) {
+	if t.rt != nil {
+		t.rt.Reset(d)
+		return
+	}
+	t.arm(d)
 }
